@@ -149,11 +149,16 @@ def nested_wrappers(t):
             and isinstance(s.child, p.CommonSubexpression)]
 
 
+import collections
+ALIVE = collections.deque(maxlen=8)     # results of earlier tagging calls, still referenced
+
+
 @check("C12.tag")
 def c_tag(ctx, case):
     exprs, share = case
     try:
         tagged = tag_common_subexpressions(exprs)
+        ALIVE.append(tagged)        # a caller keeps its results: later calls must not depend on it
     except RecursionError:
         raise
     except Exception as ex:  # noqa: BLE001
@@ -224,7 +229,7 @@ def c_tag(ctx, case):
 KF_PREWRAP = "C12-prefixed-or-scoped-pre-existing-wrapper-not-shared"
 
 
-def _entries_of(exprs, u):
+def _entries_of(exprs, u, inner=None):
     """(tagged list, how often one plain evaluator over all of it enters operation u, f calls)"""
     tagged = tag_common_subexpressions(exprs)
     calls = Counter()
@@ -235,8 +240,12 @@ def _entries_of(exprs, u):
     m = CountingEM({"x": F(3, 2), "y": F(-2), "z": F(5, 4), "f": f})
     for t in tagged:
         m(t)
-    return tagged, m.entered[keyac(strip(u))], sum(calls.values()), \
-        sum(1 for k in m.entered if k[0] == "Call")
+    # the operation u at most once -- and, separately, the sub-term of u that is repeated
+    # outside it (operations that occur ONLY inside u are recomputed with u, of course)
+    ku = keyac(strip(u))
+    kin = keyac(strip(inner)) if inner is not None else None
+    return tagged, m.entered[ku], (m.entered[kin] if kin is not None and kin != ku else 0), \
+        sum(calls.values()), sum(1 for k in m.entered if k[0] == "Call")
 
 
 @check("C12.preexisting")
@@ -244,28 +253,47 @@ def c_preexisting(ctx, case):
     """An operation u that occurs once as the direct child of a hand-placed wrapper and once
     bare is a repeated operation by any reading; the two surrounding operations differ."""
     u, prefix, scope = case
-    mk = lambda pre, sc: [p.Product((p.CommonSubexpression(u, pre, sc), 2)),    # noqa: E731
-                          p.Sum((G.deep_rebuild(u), p.Variable("z"), 7))]
+    derived = prefix == "derived-class"     # a user SUBCLASS of the wrapper class, plain otherwise
+    if derived:
+        from ..usertypes import TaggedCSE
+        prefix = None
+    # third entry: a deeper sub-term of u repeated outside it (must end up shared as well)
+    inner = next((s for s in subterms(u)[1:] if isinstance(s, OPS)), None)
+
+    def mk(pre, sc):
+        w = TaggedCSE(u, pre, sc, "tg") if derived else p.CommonSubexpression(u, pre, sc)
+        out = [p.Product((w, 2)), p.Sum((G.deep_rebuild(u), p.Variable("z"), 7))]
+        if inner is not None:
+            out.append(p.Quotient(G.deep_rebuild(inner), 13))     # (13 occurs nowhere else)
+        return out
     ctx.case(None)
     ctx.count("preexisting_wrapper_lists")
     try:
-        tagged, n, ncalls, ncallops = _entries_of(mk(prefix, scope), u)
+        tagged, n, nbelow, ncalls, ncallops = _entries_of(mk(prefix, scope), u, inner)
     except (ZeroDivisionError, TypeError, ValueError, OverflowError):
         ctx.count("sharing_skipped_fault")
         return
-    if n > 1 or ncalls > ncallops:
+    if n > 1 or nbelow > 1 or ncalls > ncallops:
         finding = None
-        if prefix is not None or scope != p.cse_scope.EVALUATION:
-            try:        # explanation test: the same list with a plain wrapper is shared
-                _, n0, c0, o0 = _entries_of(mk(None, p.cse_scope.EVALUATION), u)
-                if n0 == 1 and c0 <= o0:
+        if prefix is not None or scope != p.cse_scope.EVALUATION or derived:
+            try:
+                # explanation test: the duplication is confined to u itself (everything below it
+                # is still shared) and the same list with a plain wrapper is shared entirely
+                was_derived, derived = derived, False
+                _, n0, b0, c0, o0 = _entries_of(mk(None, p.cse_scope.EVALUATION), u, inner)
+                derived = was_derived
+                calls_in_u = sum(1 for s_ in subterms(u) if isinstance(s_, p.Call)
+                                 and (inner is None or keyac(strip(s_)) != keyac(strip(inner))))
+                if n0 == 1 and b0 <= 1 and c0 <= o0 and nbelow <= 1 \
+                        and ncalls <= ncallops + calls_in_u:
                     finding = KF_PREWRAP
             except Exception:  # noqa: BLE001
-                pass
+                derived = was_derived
         ctx.fail("C12.preexisting", case, "evaluated-twice:pre-existing-wrapper",
-                 f"[CSE(u, {prefix!r}, {scope})*2, u + z + 7] with u = {u}: tagged "
-                 f"{[str(t) for t in tagged]}; one evaluator over both entered u {n} times "
-                 f"({ncalls} calls of f for {ncallops} call operations)", finding=finding)
+                 f"[{'TaggedCSE' if derived else 'CSE'}(u, {prefix!r}, {scope})*2, u + z + 7, ..] "
+                 f"with u = {u}: tagged {[str(t) for t in tagged]}; one evaluator over all entered u "
+                 f"{n} times, its sub-term repeated outside {nbelow} times ({ncalls} calls of f for "
+                 f"{ncallops} call operations)", finding=finding)
 
 
 @check("C12.once")
@@ -409,8 +437,11 @@ def c_tagger(ctx, case):
 def workload(ctx):
     rng = ctx.rng
     with HandlerTrace([csemod, mapmod]) as tr:
+        pool = []
         for i in range(ctx.per_shard(ctx.pick(3000, 60000))):
-            pool = []
+            if i % 3 != 1:
+                pool = []       # (every third list re-uses sub-terms of the one before it, whose
+                #                 tagged result is still alive)
             exprs = [gen(rng, rng.randint(1, 3), pool, ctx.hist) for _ in range(rng.randint(1, 5))]
             exprs = [e for e in exprs if isinstance(e, p.Expression)]
             if not exprs:
@@ -434,7 +465,7 @@ def workload(ctx):
             u = gen(rng, rng.randint(1, 3), [], ctx.hist)
             if not isinstance(u, OPS) or ambiguous([u]):
                 continue
-            pre = rng.choice([None, None, "pre"])
+            pre = rng.choice([None, None, "pre", "derived-class"])
             sc = rng.choice([p.cse_scope.EVALUATION, p.cse_scope.EVALUATION, p.cse_scope.GLOBAL])
             ctx.case(("prewrap", normal.typed_key(u), pre, sc), True, n=0)
             ctx.run("C12.preexisting", (u, pre, sc))
